@@ -48,6 +48,8 @@ let file_exec (f : string array) : string =
               p_size = n_of_string f.(6) } in
     let (f', _) = df_write crc !cur (encode_hint (tok_bytes f.(2)) p) in
     cur := f'; "ok"
+  | "putfail" -> "err io"   (* the back-end refused the write: nothing happened *)
+  | "resetsize" -> ""       (* the mapping of the implementation's file is dropped; the content is the same *)
   | "far" -> ""   (* the implementation's file begins with a sparse region; positions are reported relative to it *)
   | "stage" ->
     cur := df_stage !cur (encode_record (rec_of f.(2) f.(3) f.(4) f.(5))); ""
